@@ -339,7 +339,7 @@ def _instantiate_one(art, v, outroot):
     out = 'lex.cc' if v.backend == 'cxx' else 'lex.c'
     env = dict(os.environ); env['LC_ALL'] = 'C'
     try:
-        p = subprocess.run([art.flex] + v.flags + ['-o', out, 'spec.l'], cwd=d, stdout=subprocess.PIPE, stderr=subprocess.PIPE, timeout=120, env=env)
+        p = subprocess.run([art.flex] + v.flags + ['-o', out, 'spec.l'], cwd=d, stdout=subprocess.PIPE, stderr=subprocess.PIPE, timeout=int(os.environ.get('VERIF_FLEX_TIMEOUT', '20')), env=env)
         v.status = p.returncode; v.stderr = p.stderr.decode(errors='replace')[-4000:]
     except subprocess.TimeoutExpired:
         v.status = -999; v.stderr = 'timeout'
